@@ -48,6 +48,20 @@ int snprintf(char *buf, size_t z, const char *fmt, ...)
 	return 0;
 }
 
+#if defined VERIF_CBMC
+/* only the byte counts of the formatted output matter here: an arbitrary count of 0..24 bytes
+ * per call (CBMC's own vsnprintf model writes nondeterministic characters in a loop) */
+int nondet_int(void);
+int vsnprintf(char *buf, size_t z, const char *fmt, va_list ap)
+{
+	(void)fmt; (void)ap;
+	int n = nondet_int();
+	__CPROVER_assume(n >= 0 && n <= 24);
+	if (z) buf[0] = '\0';
+	return n;
+}
+#endif
+
 int openat(int dfd, const char *fn, int fl, ...)
 {
 	(void)dfd;
